@@ -157,8 +157,16 @@ class FakeSnowflakeCursor:
             # A statement carried out in several steps (the statements a MERGE is exploded into, CREATE TABLE followed by
             # the recording of its comment and text lengths) takes effect as a whole or not at all, and is not seen
             # half-done by other connections. Inside a transaction of the user it is the user who commits or rolls back.
-            multi_step = len(exploded) > 1 or bool(
-                transformed.args.get("table_comment") or transformed.args.get("text_lengths")
+            multi_step = (
+                len(exploded) > 1
+                or bool(transformed.args.get("table_comment") or transformed.args.get("text_lengths"))
+                or (
+                    isinstance(transformed, sqlglot.exp.Alter)
+                    and any(
+                        isinstance(a, (sqlglot.exp.RenameTable, sqlglot.exp.RenameColumn))
+                        for a in transformed.args.get("actions") or []
+                    )
+                )
             )
             own_transaction = multi_step and not self._in_transaction()
             # one such transaction at a time per instance: two of them writing the same metadata row (eg: the comment of
@@ -415,6 +423,25 @@ class FakeSnowflakeCursor:
                     # only when the dropped schema is in the current database
                     self._conn.schema = None
                     self._conn.schema_set = False
+
+        if (
+            cmd == "ALTER TABLE"
+            and isinstance(altered := transformed.this, exp.Table)
+            and (catalog := altered.catalog or self._conn.database)
+            and (schema := altered.db or self._conn.schema)
+        ):
+            # the comment and text lengths follow a renamed table or column
+            for action in transformed.args.get("actions") or []:
+                if isinstance(action, exp.RenameTable):
+                    self._duck_conn.execute(
+                        info_schema.rename_table_metadata_sql(catalog, schema, altered.name, action.this.name)
+                    )
+                elif isinstance(action, exp.RenameColumn):
+                    self._duck_conn.execute(
+                        info_schema.rename_column_metadata_sql(
+                            catalog, schema, altered.name, action.this.name, action.args["to"].name
+                        )
+                    )
 
         if (
             cmd == "CREATE TABLE"
